@@ -10,7 +10,7 @@ def shard_events(events, nshards):
     """split a list of events into <= nshards lists, cutting only at `reset` events"""
     runs, cur = [], []
     for e in events:
-        if e.get("ev") == "reset" and cur:
+        if e.get("ev") == "reset" and e.get("pair") != "B" and cur:
             runs.append(cur)
             cur = []
         cur.append(e)
@@ -29,8 +29,14 @@ def shard_events(events, nshards):
 def harness_runs(ctx, cases, tag="ivp", task="ivp", nproc=8, timeout=3000):
     """run the cases through `vh <task>` in nproc parallel processes; returns all events"""
     from concurrent.futures import ThreadPoolExecutor
-    nproc = max(1, min(nproc, len(cases)))
-    chunks = [cases[k::nproc] for k in range(nproc)]
+    units = []
+    for c in cases:
+        if c.get("pair") == "B" and units:
+            units[-1].append(c)       # a B run stays right behind its A run
+        else:
+            units.append([c])
+    nproc = max(1, min(nproc, len(units)))
+    chunks = [[c for u in units[k::nproc] for c in u] for k in range(nproc)]
     paths = []
     for k, ch in enumerate(chunks):
         cp = ctx.path("%s-cases-%d.ndjson" % (tag, k))
@@ -68,6 +74,8 @@ def validate(ctx, events, module, tag="ivp", nshards=8, env=None, timeout=1500, 
             raise vlib.ToolError("%s consumed %s of %d events" % (module, chk, len(sh)))
         for v in r.tagged("VIOL"):
             viols.append((sh[v[1] - 1], v[2], v[3:] if len(v) > 3 else None))
+        for st in r.tagged("STAT"):
+            ctx.notes.setdefault("_stat", []).append(st[1:])
         for a in r.tagged("ACT"):
             key = "%s!%s" % (module, a[1])
             ctx.actions.setdefault(key, [0, 0])[0] += 1
@@ -106,5 +114,5 @@ def run_stats(events):
 
 
 def case_brief(case):
-    keys = ("id", "solver", "dim", "dyn", "cx", "t0", "t1", "dtmin", "dtmax", "tol", "rhs", "y0", "fail_at")
+    keys = ("id", "solver", "dim", "dyn", "cx", "t0", "t1", "dtmin", "dtmax", "tol", "rhs", "y0", "fail_at", "lip", "acc", "pair")
     return {k: case[k] for k in keys if k in case}
